@@ -349,8 +349,8 @@ def verify_function(qualname, contract, schema, timeout_ms=10000, contracts=None
         loops = [n for n in ast.walk(fi.node) if isinstance(n, ast.For)]
         by_iter = [n for n in loops if "iter" in frag and ast.unparse(n.iter).replace('"', "'") == frag["iter"].replace('"', "'")]
         by_body = [n for n in loops if frag.get("body_contains") and frag["body_contains"] in "\n".join(ast.unparse(b) for b in n.body)]
-        by_body = [n for n in by_body if not any(m is not n and m in list(ast.walk(n)) for m in by_body)]  # innermost
         both = [n for n in by_iter if n in by_body]
+        by_body = [n for n in by_body if not any(m is not n and m in list(ast.walk(n)) for m in by_body)]  # innermost (for the body-only fallback)
         # the loop is named by the text of its iterable and / or by a text its body contains; either may have been rewritten, so the
         # two are combined: both agree > the iterable text alone is unambiguous > the body text alone is unambiguous
         if "iter" not in frag:
